@@ -2,7 +2,7 @@
    Any field; every N, every bandwidth J, all values including the documented 'ignored' slots. *)
 From mathcomp Require Import all_ssreflect all_algebra.
 From TinyGP Require Import Base.Ops Base.LMat Model.QSMCore Model.Noise
-  Theory.MxRefine Theory.QSMDen Theory.QSMMatmul Theory.NoiseThy Theory.Scatter.
+  Theory.MxRefine Theory.QSMDen Theory.QSMMatmul Theory.NoiseThy Theory.Scatter Theory.ScatterBanded.
 Set Implicit Arguments. Unset Strict Implicit. Unset Printing Implicit Defensive.
 Import GRing.Theory.
 Local Open Scope ring_scope.
@@ -50,3 +50,10 @@ Theorem C11_diagonal_add (F : fieldType) sq lt n (d : vec F) (k : mat F) : size 
   mx_of n n (nadd (fops sq lt) (NDiagonal n d) k) = mx_of n n k + diag_mx (rv_of n d).
 Proof. exact: diagonal_add. Qed.
 Print Assumptions C11_diagonal_add.
+
+(* the `+` view of the banded model: the two scatter-adds over Banded._indices add exactly the documented banded matrix
+   (garbage in the unused slots of off_diags is never read) *)
+Theorem C11_banded_add (F : fieldType) sq lt n J (d : vec F) (od k : mat F) : size d = n ->
+  mx_of n n (nadd (fops sq lt) (NBanded n J d od) k) = mx_of n n k + banded_mx n J d od.
+Proof. exact: banded_add. Qed.
+Print Assumptions C11_banded_add.
